@@ -216,10 +216,15 @@ loop:
 		chunks[i] = results[i]
 	}
 
-	// Build and return the index
+	// Build and return the index. The digest flag has to match the algorithm
+	// the chunk IDs were calculated with.
+	var digestFlag uint64
+	if Digest.Algorithm() == crypto.SHA512_256 {
+		digestFlag = CaFormatSHA512256
+	}
 	index := Index{
 		Index: FormatIndex{
-			FeatureFlags: CaFormatExcludeNoDump | CaFormatSHA512256,
+			FeatureFlags: CaFormatExcludeNoDump | digestFlag,
 			ChunkSizeMin: c.Min(),
 			ChunkSizeAvg: c.Avg(),
 			ChunkSizeMax: c.Max(),
